@@ -146,6 +146,10 @@ func c14CraftedPool() []c14Op {
 		{Query: "{ thing { ...F } } fragment F on B { label }", Kind: "query", Note: "fragment type condition"},
 		{Query: "{ things { ...F } } fragment F on A { label }", Kind: "query", Note: "fragment type condition"},
 		{Query: "{ things { ...F } } fragment F on B { label }", Kind: "query", Note: "fragment type condition"},
+		{Query: "{ ...Q } fragment Q on Query { thing { ...F } } fragment F on A { label }", Kind: "query", Note: "type condition of a fragment spread INSIDE another fragment"},
+		{Query: "{ ...Q } fragment Q on Query { thing { ...F } } fragment F on B { label }", Kind: "query", Note: "type condition of a fragment spread INSIDE another fragment"},
+		{Query: "{ things { ...O } } fragment O on I { ...F } fragment F on A { label }", Kind: "query", Note: "type condition of a fragment spread INSIDE another fragment"},
+		{Query: "{ things { ...O } } fragment O on I { ...F } fragment F on B { label }", Kind: "query", Note: "type condition of a fragment spread INSIDE another fragment"},
 		{Query: "{ thing { ... on A { label } } }", Kind: "query", Note: "inline fragment condition"},
 		{Query: "{ thing { ... on B { label } } }", Kind: "query", Note: "inline fragment condition"},
 		{Query: "{ items { ...F } } fragment F on A { label }", Kind: "query", Note: "fragment body"},
@@ -949,6 +953,8 @@ func runC14(ctx *Ctx) error {
 		{"query A { ping }", "mutation A { ping }"},
 		{"{ thing { ...F } } fragment F on A { label }", "{ thing { ...F } } fragment F on B { label }"},
 		{"{ things { ...F } } fragment F on B { label }", "{ things { ...F } } fragment F on A { label }"},
+		{"{ ...Q } fragment Q on Query { thing { ...F } } fragment F on A { label }", "{ ...Q } fragment Q on Query { thing { ...F } } fragment F on B { label }"},
+		{"{ things { ...O } } fragment O on I { ...F } fragment F on B { label }", "{ things { ...O } } fragment O on I { ...F } fragment F on A { label }"},
 		{"{ thing { ... on A { label } } }", "{ thing { ... on B { label } } }"},
 		{"{ items { ...F } } fragment F on A { label }", "{ items { ...F } } fragment F on A { extra }"},
 		{"{ x: ping }", "{ y: ping }"},
